@@ -38,8 +38,10 @@ def oneline(value: object) -> str:
     visible to whoever is reading, and still only one line.
     """
     text = str(value)
+    # the pipe is written with bytes(line, 'ascii'): what is printable but not ASCII is escaped too
     return ''.join(
-        character if character.isprintable() or character == ' ' else repr(character)[1:-1] for character in text
+        character if (character.isprintable() and character.isascii()) or character == ' ' else ascii(character)[1:-1]
+        for character in text
     )
 
 
